@@ -579,6 +579,10 @@ def rand_field(rng, name, ureg, pools):
         names = [rng.choice(pools.spell) for _ in range(rng.randint(1, 3))]
         return names[0] if k < 0.4 else (names if k < 0.6 else tuple(names) if k < 0.8 else set(names))
     if name in ("units1", "units2"):
+        if name == "units2" and rng.random() < 0.2:
+            # present but falsy second operand: pint itself raises these ("" for a bare number,
+            # an empty container for a dimensionless quantity)
+            return rng.choice(("", ureg.UnitsContainer(), ureg.Unit(""), 0))
         return unitish()
     if name in ("dim1", "dim2"):
         return rng.choice(("", "[length]", ureg.get_dimensionality(rng.choice(pools.canon))))
@@ -597,6 +601,10 @@ def real_exceptions(pint, pintload, ureg):
         "undefined-two": lambda: ureg.parse_expression("3 zork_a * zork_b"),
         "getattr-undefined": lambda: ureg.zork_undefined,
         "offset-mul": lambda: Q(1, "degC") * Q(1, "degC"),
+        "offset-div-number": lambda: Q(1, "degC") / 2,
+        "number-div-offset": lambda: 2 / Q(1, "degC"),
+        "offset-div-dimensionless": lambda: Q(1, "degC") / Q(2, ""),
+        "log-mul-number": lambda: Q(1, "dBm") * Q(2, ""),
         "log-mul": lambda: Q(1, "dB") * Q(1, "dBm"),
         "log-add": lambda: Q(1, "dBm") + Q(1, "dB"),
         "pow-dimensional": lambda: Q(2, "m") ** Q(2, "m"),
